@@ -23,7 +23,9 @@ NodeCfgs == <<
   {E("n", "value", "B", "int", 10)},                                              \* 6 missing mandatory
   Base \cup {E("a", "min", "P", "int", 160), E("a", "max", "P", "int", 40)},       \* 7 inverted limits
   Base \cup {E("c", "foo", "P", "int", 2)},                                       \* 8 unknown command property
-  {E("mp", "value", "B", "int", 6)} >>                                            \* 9 missing needscfg value
+  {E("mp", "value", "B", "int", 6)},                                              \* 9 missing needscfg value
+  Base \cup {E("ou", "value", "B", "int", 6), E("oi", "value", "B", "int", 10)} >>  \* 10 entry for an optional accessible
+                                                                                  \*    the class does not implement
 Name(k) == "m" \o ToString(k)
 (* how the modules are served: all polled / unpolled, unpolled on an io, polled / on io, polled by io, unpolled *)
 KindVecs == << <<"polled", "polled", "polled">>, <<"unpolled", "onio", "polled">>, <<"onio", "pio", "unpolled">>,
